@@ -1,0 +1,76 @@
+//go:build verif
+
+// Contracts for the deductive verifier under /verif (comment-only; never compiled into oxy).
+package roundrobin
+
+//@ pred rbPoolOK(rb *Rebalancer) = forall i int :: 0 <= i && i < len(rb.servers) ==> rb.servers[i] != nil && allocated(rb.servers[i]) && rb.servers[i].url != nil && allocated(rb.servers[i].url)
+//@ pred rbUniq(rb *Rebalancer) = forall i int, j int :: 0 <= i && i < j && j < len(rb.servers) ==> !sameID(rb.servers[i].url, rb.servers[j].url)
+//@ pred rbMember(rb *Rebalancer, u *url.URL) = exists i int :: 0 <= i && i < len(rb.servers) && sameID(u, rb.servers[i].url)
+
+//@ type Rebalancer
+//@   immutable mtx backoffDuration next errHandler newMeter stickySession requestRewriteListener debug log
+//@   setup Wrap
+//@   guarded_by mtx: timer servers ratings
+//@   lockinv mtx (rb): rb_pool_ok: rbPoolOK(rb)
+//@   lockinv mtx (rb): rb_uniq: rbUniq(rb)
+
+//@ type rbServer
+//@   immutable url meter
+//@   guarded_by Rebalancer.mtx: origWeight curWeight good
+
+// The wrapped balancer: assumed to behave like *RoundRobin (its own contracts are proved in verif_contracts.go)
+// and to keep its state in its own objects.
+
+//@ iface roundrobin.BalancerHandler.UpsertServer
+//@   params self u options
+//@   modifies RoundRobin.servers, RoundRobin.index, RoundRobin.currentWeight, server.weight
+//@   ensures nil_refused: u == nil ==> result != nil
+
+//@ iface roundrobin.BalancerHandler.RemoveServer
+//@   params self u
+//@   modifies RoundRobin.servers, RoundRobin.index, RoundRobin.currentWeight
+
+//@ iface roundrobin.BalancerHandler.ServerWeight
+//@   params self u
+//@   ensures result1 ==> result0 >= 0
+
+//@ iface roundrobin.BalancerHandler.Servers
+//@   params self
+
+//@ iface roundrobin.BalancerHandler.NextServer
+//@   params self
+//@   modifies RoundRobin.index, RoundRobin.currentWeight
+//@   ensures error_or_fresh: (result1 == nil) <==> (result0 != nil)
+//@   ensures fresh_copy: result1 == nil ==> fresh(result0)
+
+//@ iface roundrobin.BalancerHandler.Next
+//@   params self
+
+//@ functype roundrobin.NewMeterFn
+//@   params
+//@   modifies everything
+//@   ensures (result1 == nil) ==> result0 != nil
+
+// ---- C02 through the rebalancer -------------------------------------------------------------
+
+//@ func (*Rebalancer).findServer
+//@   props C02 C10
+//@   holds rb.mtx
+//@   requires rbPoolOK(rb) && u != nil
+//@   ensures both: (result0 == nil) <==> (result1 == -1)
+//@   ensures found: result0 != nil ==> 0 <= result1 && result1 < len(rb.servers) && result0 == rb.servers[result1] && sameID(u, result0.url) && (forall j int :: 0 <= j && j < result1 ==> !sameID(u, rb.servers[j].url))
+//@   ensures notfound: result0 == nil ==> !rbMember(rb, u)
+//@   loop 1 invariant -1 <= rangeindex && rangeindex < len(rb.servers)
+//@   loop 1 invariant forall j int :: 0 <= j && j <= rangeindex ==> !sameID(u, rb.servers[j].url)
+
+//@ func (*Rebalancer).upsertServer
+//@   props C02 C10
+//@   holds rb.mtx
+//@   requires rbPoolOK(rb) && rbUniq(rb) && u != nil
+//@   modifies everything
+//@   ensures keeps_pool_ok: rbPoolOK(rb)
+//@   ensures keeps_uniq: rbUniq(rb)
+//@   ensures existing_no_new_record: old(rbMember(rb, u)) && result == nil ==> len(rb.servers) == old(len(rb.servers))
+//@   ensures new_record: !old(rbMember(rb, u)) && result == nil ==> len(rb.servers) == old(len(rb.servers)) + 1 && sameID(u, rb.servers[len(rb.servers)-1].url) && rb.servers[len(rb.servers)-1].origWeight == weight && rb.servers[len(rb.servers)-1].curWeight == weight
+//@   ensures failure_keeps_records: result != nil ==> len(rb.servers) == old(len(rb.servers))
+//@   ensures member_after: result == nil ==> rbMember(rb, u)
